@@ -6,6 +6,7 @@ from sa.rules import cpp_rules as C
 from sa.rules import pipeline as P
 from sa.rules import ranges as RG
 from sa.rules import window_rules as WN
+from sa.rules import bounds_rules as BR
 
 
 def main(tier):
@@ -33,6 +34,7 @@ def main(tier):
     chk.run("R-ACCESSOR", B.accessor, cx.repo, floor=5)
     chk.run("R-COPY", C.copy_rule, cx.cpp, cx.templates, floor=6)
     chk.run("R-WIDTHS", lambda: cx.widths, floor=3000)
+    chk.run("R-COMMSYM", BR.commsym, cx.repo, floor=2)
     chk.run("R-GATE", P.gate, cx.repo, cx.schema, cx.sites, floor=4)
     chk.run("R-INTRANGE", RG.intrange, cx.repo, floor=190)
     chk.run("R-INTERMEDIATE", RG.intermediate, cx.repo, floor=2)
